@@ -151,7 +151,7 @@ def run(tier, seed):
                   'enum_rt premises (member names distinct from "" and listed) are checked for every enumeration of every year below']
     sf.compile_props(ck, 'C14')
     H = scenarios.habutax_modules()
-    float_text_correspondence(ck, H, random.Random(seed + 1414), 60 if tier == 'quick' else 1500)
+    float_text_correspondence(ck, H, random.Random(seed + 1414), 400 if tier == 'quick' else 6000)
     F = H['fields']
 
     class FakeForm(object):
